@@ -2035,7 +2035,10 @@ Qed.
 Lemma exec_stmt_ok : forall st cur s, cur < length (owners (b_core s)) -> bstep_ok s (exec_stmt cur st s).
 Proof.
   fix IH 1. intros st cur s Hcur.
-  destruct st as [| | |ty v|ty|b|b|b|b|b]; cbn [exec_stmt].
+  destruct st as [| |kind| |ty v|ty|b|b|b|b|b]; cbn [exec_stmt].
+  - pose proof (cstep_alloc cur (IVal (length (handles s))) (b_core s) (fun _ => I)) as H.
+    destruct (alloc cur (IVal (length (handles s))) (b_core s)) as [k c]. cbn [snd] in H.
+    split; [exact H|]. apply bwf_grow; auto. destruct H as (_ & _ & H). exact H.
   - pose proof (cstep_alloc cur (IVal (length (handles s))) (b_core s) (fun _ => I)) as H.
     destruct (alloc cur (IVal (length (handles s))) (b_core s)) as [k c]. cbn [snd] in H.
     split; [exact H|]. apply bwf_grow; auto. destruct H as (_ & _ & H). exact H.
@@ -2247,6 +2250,8 @@ Proof.
     eapply bstep_trans; [exact B4|]. apply blog_ok. reflexivity.
   - apply poll_ok. exact W.
   - apply run_all_ok. exact W.
+  - destruct (user_body s o) as [b|] eqn:Hu; [|apply bstep_refl].
+    apply exec_body_ok. eapply user_body_lt; eauto.
   - destruct (user_body s o) as [b|] eqn:Hu; [|apply bstep_refl].
     apply exec_body_ok. eapply user_body_lt; eauto.
   - destruct (nth_error (handles s) h); [apply bstep_core, cstep_exec|apply bstep_refl].
@@ -2509,3 +2514,16 @@ Example ex_render_imm :
   cids (clog c0) = [] /\ cids (clog c1) = [0; 1] /\
   cids (clog c2) = [5; 3; 4; 2; 0; 1] /\ arena_len c2 = 0 /\ err c2 = false.
 Proof. vm_compute. auto. Qed.
+
+(** raw arena items are released like every other arena value: a memo allocating one per run keeps
+    exactly one entry (the previous one is disposed by the re-run, its key stays stale although the
+    slot is reused), and nothing remains once the scopes are gone *)
+Example ex_raw_items :
+  let b := [SChild [SNewItem 0; SMemo [SNewItem 2; SOnCleanup]]] in
+  let c1 := final_core b [ReadMemo 0] in
+  let c2 := final_core b [ReadMemo 0; NotifyMemo 0; ReadMemo 0; AllocItems 1 2 5] in
+  let c3 := final_core b [ReadMemo 0; NotifyMemo 0; ReadMemo 0; AllocItems 1 2 5; Cleanup 1] in
+  arena_len c1 = 3 /\ contains c1 (2, 1) = true /\
+  arena_len c2 = 5 /\ contains c2 (2, 1) = false /\ contains c2 (2, 3) = true /\
+  arena_len c3 = 0 /\ contains c3 (0, 1) = false /\ err c3 = false /\ unowned c3 = false.
+Proof. vm_compute. repeat split. Qed.
